@@ -1,5 +1,5 @@
-"""Store round-5 changes (/tmp/mut5/out_Cxx/{A,B}.*) as /verif/seeded/Cxx-{G,H}; same layout as seed_store.py.
-usage: seed_store5.py <first-resultdir> <final-resultdir>"""
+"""Store the changes of a later round (<MUT>/out_Cxx/{A,B}.*) as /verif/seeded/Cxx-{G,H} (round 5) or Cxx-{I,J} (ROUND=6); same
+layout as seed_store.py.   usage: [MUT5=<dir>] [ROUND=6] seed_store5.py <first-resultdir> <final-resultdir>"""
 import glob
 import json
 import os
@@ -12,7 +12,8 @@ for i in range(1, 21):
     cid = "C%02d" % i
     src = os.environ.get("MUT5", "/var/tmp/mut5_backup") + "/out_%s" % cid
     notes = open(src + "/notes.md").read() if os.path.exists(src + "/notes.md") else ""
-    for v, w in (("A", "G"), ("B", "H")):
+    ROUND = int(os.environ.get("ROUND", "5"))
+    for v, w in ((("A", "G"), ("B", "H")) if ROUND == 5 else (("A", "I"), ("B", "J"))):
         name = "%s-%s" % (cid, w)
         runs = []
         for d in (first_d, final_d):
@@ -29,7 +30,7 @@ for i in range(1, 21):
         open(out + "/notes.md", "w").write("(the author's notes for both changes of this property; this directory holds change %s)\n\n" % v + notes)
         files = sorted(set(re.findall(r"^\+\+\+ b/(\S+)", open(out + "/patch.diff").read(), re.M)))
         first = runs[0]
-        meta = {"id": name, "breaks_property": cid, "files_changed": files, "round": 5,
+        meta = {"id": name, "breaks_property": cid, "files_changed": files, "round": ROUND,
                 "author": "fresh sub-agent given only the property text and a scratch worktree of /repo"
                           + ("; asked not to edit any function the property's anchors name" if v == "B" else ""),
                 "needs_to_manifest": "see notes.md (the author's own description, kept verbatim)",
